@@ -7,6 +7,20 @@ from ..facts import callee, op_local, op_place
 from ..linear import Linear, LEN, show
 from ..origins import Origins, calls_in, results_in
 
+CHECKED = {"Add": "checked_add", "Sub": "checked_sub", "Mul": "checked_mul", "Div": "checked_div", "Rem": "checked_rem"}
+
+
+def machine_op(c):
+    """(trait name, type) when the callee is the machine operation on i64 / f64: the core::ops impl on (references to)
+    the primitive or the checked_* method of the integer (same operand order: receiver <op> argument)"""
+    if "core::ops::arith::" in c and c.startswith("<") and ("i64" in c or "f64" in c):
+        return c.split("core::ops::arith::")[1].split("<")[0].split(">")[0], ("i64" if "i64" in c else "f64")
+    for tr, m in CHECKED.items():
+        if c == "core::num::<impl i64>::%s" % m:
+            return tr, "i64"
+    return None
+
+
 VM = "ucglib::build::opcode::vm::VM::"
 RT = "ucglib::build::opcode::runtime::Builtins::"
 BET = "ucglib::ast::BinaryExprType"
@@ -94,11 +108,12 @@ def r1(F):
         slots = []
         for bb, tt in hp.calls():
             c = callee(tt)
-            if ("core::ops::arith::%s<" % trait) in c and ("i64" in c or "f64" in c):
+            mo = machine_op(c)
+            if mo and mo[0] == trait:
                 p0 = {l[1] for l in oh.at(tt["args"][0], bb) if l[0] == "param"}
                 p1 = {l[1] for l in oh.at(tt["args"][1], bb) if l[0] == "param"}
                 need(p0 in ({2}, {3}) and p1 in ({2}, {3}), "operands of %s in VM::%s are not the two value parameters" % (c, helper))
-                slots.append(("i64" if "i64" in c else "f64", a_pop[0] if p0 == {2} else b_pop[0], a_pop[0] if p1 == {2} else b_pop[0]))
+                slots.append((mo[1], a_pop[0] if p0 == {2} else b_pop[0], a_pop[0] if p1 == {2} else b_pop[0]))
         need(len(slots) == 2, "i64 and f64 %s not found in VM::%s" % (trait, helper))
         return slots, hp
 
@@ -356,10 +371,10 @@ def r2(F):
         return F.fn(hs[0])
     for op, (h, helper, trait) in A.items():
         hf = handler_of(op)
-        helpers = [callee(t) for b, t in hf.calls() if callee(t).startswith(VM) and callee(t) not in (POP, VM + "push")]
+        helpers = [callee(t) for b, t in hf.calls() if callee(t).startswith(VM) and callee(t) not in (POP, VM + "push", VM + "checked_int")]
         need(len(helpers) == 1, "%s calls %s" % (hf.name, helpers))
         hp = F.fn(helpers[0])
-        traits = sorted({c.split("core::ops::arith::")[1].split("<")[0] for c in (callee(t) for b, t in hp.calls()) if "core::ops::arith::" in c})
+        traits = sorted({machine_op(callee(t))[0] for b, t in hp.calls() if machine_op(callee(t))})
         ok = traits == [trait]
         r.inst("Op::%s" % op, hf.where(), ok, "%s -> %s -> core::ops::%s" % (op, hp.name.split("::")[-1], trait) if ok else "Op::%s performs %s" % (op, traits))
     for op, want in C.items():
@@ -586,9 +601,10 @@ def r84(F):
     ok = any(b in emp for b, rv in ones)
     r.inst("range:default-step", fn.where(), ok, "a missing step is 1" if ok else "a missing step does not default to 1")
     # num starts at start (first pop) and is advanced by step
-    adds = [(b, rv) for b, j, pl, rv, m in fn.assigns() if b in body and rv["k"] == "bin" and rv["op"] in ("Add", "AddWithOverflow") and rv["ty"] == "i64"]
-    ok = len(adds) == 1 and 2 in _which_pop(o.at(adds[0][1]["ops"][1], adds[0][0]), pops) + _which_pop(o.at(adds[0][1]["ops"][0], adds[0][0]), pops)
-    r.inst("range:advance", fn.where(adds[0][0]) if adds else fn.where(), ok, "num += step" if ok else "the loop does not advance by step")
+    adds = [(b, rv["ops"]) for b, j, pl, rv, m in fn.assigns() if b in body and rv["k"] == "bin" and rv["op"] in ("Add", "AddWithOverflow") and rv["ty"] == "i64"]
+    adds += [(b, t["args"]) for b, t in fn.calls() if b in body and callee(t) == "core::num::<impl i64>::checked_add"]
+    ok = len(adds) == 1 and 2 in _which_pop(o.at(adds[0][1][1], adds[0][0]), pops) + _which_pop(o.at(adds[0][1][0], adds[0][0]), pops)
+    r.inst("range:advance", fn.where(adds[0][0]) if adds else fn.where(), ok, "num advances by step" if ok else "the loop does not advance by step")
     return r
 
 
